@@ -193,11 +193,16 @@ deriving Repr, Inhabited, DecidableEq
 def mkCode (ls : List LL) : Node :=
   ⟨false, ls.flatMap (·.lines), (ls.map (·.lines.length)).sum, ls.map (·.text)⟩
 
+/-- `FileParser.is_directive(logical_line)`: the category is `CPP_DIRECTIVE` and
+    `not flushed_line.lstrip(" ").startswith("##")` — a yielded line whose first token is `##` is code (before the repair
+    of F-C05-3 `DirectiveParser.parse` raised `ParseError("Not a directive.")` on it for the whole file) -/
+def LL.isDirective (l : LL) : Bool := l.isDir && !((l.text.dropWhile (· == ' ')).take 2 == ['#', '#'])
+
 /-- `acc` = the open code group (logical lines, in order) -/
 def groupAux (acc : List LL) : List LL → List Node
   | [] => if acc.isEmpty then [] else [mkCode acc]
   | l :: rest =>
-    if l.isDir then
+    if l.isDirective then
       (if acc.isEmpty then [] else [mkCode acc]) ++ ⟨true, l.lines, l.lines.length, [l.text]⟩ :: groupAux [] rest
     else groupAux (acc ++ [l]) rest
 
